@@ -6,7 +6,7 @@ use std::collections::HashMap;
 use std::io::{Cursor, Seek, SeekFrom, Write};
 
 use memvid_core::{
-    MemvidError, QuerySketch, SketchEntry, SketchFlags, SketchTrack, SketchVariant, build_term_filter,
+    Memvid, MemvidError, QuerySketch, SketchEntry, SketchFlags, SketchTrack, SketchVariant, build_term_filter,
     generate_sketch, hash_token, read_sketch_track, term_filter_maybe_contains, tokenize_for_sketch,
     write_sketch_track,
 };
@@ -256,6 +256,7 @@ fn gen_sketch_case(rng: &mut Rng, drv: &mut Option<Driver>, sum: &mut Summary) {
     }
     let extra = gen_text(rng, ascii_only);
     run_sketch_case(&text, variant, id, &idf, &extra, drv, sum);
+    if rng.chance(1, 4) { run_reload_filter_case(&text, variant, drv, sum); }
 }
 
 // ------------------------------------------------------------------------------------------
@@ -361,6 +362,7 @@ fn run_track_case(variant: SketchVariant, inserts: &[SketchEntry], pre: usize, p
                 sum.oracle_violation("track-variant-changed", &format!("{} -> {}", vname(track.variant), vname(t2.variant)), case.clone());
             } else if identical {
                 sum.branch("track-round-trip-identical");
+                // identical filters: clause 1 carries over to the re-read entries (nothing more to check)
             } else {
                 // which recorded failure class explains the difference?
                 let ids_dense = before.iter().enumerate().all(|(i, e)| e.frame_id == i as u64);
@@ -514,6 +516,95 @@ fn gen_read_case(rng: &mut Rng, drv: &mut Option<Driver>, sum: &mut Summary) {
     run_read_case(&file, offset, length, drv, sum);
 }
 
+
+/// clause 1 after clause 2: do the tokens of a text still test true in the filter that is read back?
+/// (Small/Medium: yes, proved; Large: the 64-byte filter comes back as 32 bytes — part of the shape finding)
+fn run_reload_filter_case(text: &str, variant: SketchVariant, drv: &mut Option<Driver>, sum: &mut Summary) {
+    let tokens = tokenize_for_sketch(text);
+    let e = generate_sketch(0, text, variant, None);
+    let mut track = SketchTrack::new(variant);
+    track.insert(e.clone());
+    let mut cur = Cursor::new(Vec::new());
+    let (o, l, _) = write_sketch_track(&mut cur, &track).unwrap();
+    let back = read_sketch_track(&mut cur, o, l).unwrap();
+    let e2 = back.iter().next().cloned().unwrap();
+    let lost: Vec<&String> = tokens.iter().filter(|t| {
+        let (f, h) = (e2.term_filter.clone(), hash_token(t));
+        !guarded(move || term_filter_maybe_contains(&f, h)).unwrap_or(false)
+    }).collect();
+    let case = json!({"kind": "reload", "variant": vname(variant), "text": hexw(text.as_bytes())});
+    if lost.is_empty() {
+        sum.branch("reload-filter-keeps-all-tokens");
+    } else if variant == SketchVariant::Large && e2.term_filter.len() == 32 && e.term_filter.len() == 64 {
+        let known = KNOWN.get().cloned().unwrap_or_default();
+        let predicted = match drv { Some(d) => d.ask(&format!("norm large {}", entry_line(&e))) == track_line(&back), None => false };
+        let what = format!("Large sketch of {text:?}: after write+read the 32-byte filter no longer reports token(s) {lost:?}");
+        if predicted && known.iter().any(|k| k == SIG_SHAPE) {
+            sum.branch("reload-large-filter-false-negative");
+            sum.known_finding(SIG_SHAPE, &what, case.clone());
+        } else {
+            sum.oracle_violation(SIG_SHAPE, &what, case.clone());
+        }
+    } else {
+        sum.oracle_violation("reload-filter-false-negative", &format!("{} sketch of {text:?}: tokens {lost:?} are not reported by the re-read filter", vname(variant)), case.clone());
+    }
+    let canon = format!("L|{}|{}|{}", vname(variant), text, lost.len());
+    sum.case(&canon, !tokens.is_empty(), || json!({"kind": "reload", "variant": vname(variant), "tokens": tokens.len(), "lost_after_reload": lost.len()}));
+}
+
+// ------------------------------------------------------------------------------------------
+// stream E: the same round trip through the public Memvid API (create → put → insert_sketch → commit → reopen)
+fn run_memvid_case(texts: &[&str], manual: &[(u64, &str)], drv: &mut Option<Driver>, sum: &mut Summary) {
+    // commit generates a Small sketch for every frame with non-blank text (mutation.rs, lex feature)
+    // `manual` = extra calls of the public Memvid::insert_sketch(frame_id, text, Small) before the commit
+    let case = json!({"kind": "memvid", "texts": texts, "manual": manual.iter().map(|(i, t)| json!([i.to_string(), t])).collect::<Vec<_>>()});
+    let dir = tempfile::tempdir().expect("tempdir");
+    let path = dir.path().join("c39.mv2");
+    let run = || -> Result<(String, String, Vec<SketchEntry>), String> {
+        let mut mem = Memvid::create(&path).map_err(|e| format!("create: {e}"))?;
+        for t in texts.iter() {
+            mem.put_bytes(t.as_bytes()).map_err(|e| format!("put: {e}"))?;
+        }
+        mem.commit().map_err(|e| format!("commit: {e}"))?;
+        if !manual.is_empty() {
+            for (id, t) in manual { mem.insert_sketch(*id, t, SketchVariant::Small); }
+            mem.commit().map_err(|e| format!("commit 2: {e}"))?;
+        }
+        let before_entries: Vec<SketchEntry> = mem.sketches().iter().cloned().collect();
+        let before = track_line(mem.sketches());
+        drop(mem);
+        let mem2 = Memvid::open(&path).map_err(|e| format!("open: {e}"))?;
+        Ok((before, track_line(mem2.sketches()), before_entries))
+    };
+    sum.branch("memvid-reopen");
+    match run() {
+        Err(e) => sum.oracle_violation("memvid-sketch-persist-failed", &e, case.clone()),
+        Ok((before, after, entries)) => {
+            let canon = format!("M|{before}|{after}");
+            let n = entries.len();
+            if before == after {
+                sum.branch("memvid-reopen-identical");
+            } else {
+                let predicted = match drv {
+                    Some(d) => d.ask(&format!("norm small {}", entries_line(&entries))) == after,
+                    None => false,
+                };
+                let ids_dense = entries.iter().enumerate().all(|(i, e)| e.frame_id == i as u64);
+                let sig = if !ids_dense { SIG_IDS } else { SIG_SMALL };
+                let what = format!("sketch track of a memory differs after commit + reopen: before {before} / after {after}");
+                let known = KNOWN.get().cloned().unwrap_or_default();
+                if predicted && known.iter().any(|k| k == sig) {
+                    sum.branch(if ids_dense { "memvid-known-small-drops-fields" } else { "memvid-known-ids-not-stored" });
+                    sum.known_finding(sig, &what, case.clone());
+                } else {
+                    sum.oracle_violation(sig, &what, case.clone());
+                }
+            }
+            sum.case(&canon, n > 0, || json!({"kind": "memvid", "frames": texts.len(), "sketches": n, "before": before, "after": after}));
+        }
+    }
+}
+
 // ------------------------------------------------------------------------------------------
 fn canonical_small(id: u64) -> SketchEntry {
     SketchEntry { frame_id: id, simhash: 0, term_filter: vec![0; 16], top_terms: vec![0, 0], term_weight_sum: 0, flags: SketchFlags::from_bits(7), length_hint: 0 }
@@ -573,6 +664,13 @@ fn corpus(drv: &mut Option<Driver>, sum: &mut Summary) {
     run_track_case(Small, &[generate_sketch(0, "alpha beta gamma delta", Medium, None)], 0, &[], drv, sum);
     run_track_case(Small, &[canonical_small(1), canonical_small(0)], 3, &[9], drv, sum);
     run_track_case(Medium, &[canonical_medium(0), canonical_medium(1), SketchEntry { simhash: 9, ..canonical_medium(0) }], 0, &[], drv, sum);
+    for v in [Small, Medium, Large] {
+        run_reload_filter_case("one two three four five six seven eight nine ten eleven twelve", v, drv, sum);
+        run_reload_filter_case("cats are wonderful pets that love to sleep and play", v, drv, sum);
+    }
+    // through the public API: commit sketches every frame (Small); a sketch inserted for frame 7 comes back on frame 2
+    run_memvid_case(&["first document about cats", "second document about dogs"], &[], drv, sum);
+    run_memvid_case(&["first document about cats", "second document about dogs"], &[(7, "a sketch for frame seven")], drv, sum);
     // reader on crafted headers
     for (es, cnt, len) in [(32u16, 1u64 << 59, 100u64), (64, 1 << 58, 0), (96, u64::MAX, u64::MAX), (32, (u64::MAX / 32), u64::MAX),
                            (32, (u64::MAX / 32) - 1, u64::MAX), (32, 1 << 40, u64::MAX), (32, 0, 24), (32, 0, 23), (31, 0, 24), (0, 5, 24)] {
@@ -628,6 +726,17 @@ fn replay_one(input: &Value, drv: &mut Option<Driver>, sum: &mut Summary) {
             if let Some(d) = drv { println!("model: {}", d.ask(&format!("read {} {} {}", hexw(&f), u("offset"), u("length")))); }
             run_read_case(&f, u("offset"), u("length"), drv, sum);
         }
+        "reload" => {
+            let text = String::from_utf8(unhexw(input["text"].as_str().unwrap()).unwrap()).unwrap();
+            run_reload_filter_case(&text, vparse(input["variant"].as_str().unwrap()), drv, sum);
+        }
+        "memvid" => {
+            let owned: Vec<String> = input["texts"].as_array().unwrap().iter().map(|t| t.as_str().unwrap_or("").to_string()).collect();
+            let texts: Vec<&str> = owned.iter().map(|t| t.as_str()).collect();
+            let mown: Vec<(u64, String)> = input["manual"].as_array().map(|a| a.iter().map(|p| (p[0].as_str().unwrap().parse().unwrap(), p[1].as_str().unwrap().to_string())).collect()).unwrap_or_default();
+            let manual: Vec<(u64, &str)> = mown.iter().map(|(i, t)| (*i, t.as_str())).collect();
+            run_memvid_case(&texts, &manual, drv, sum);
+        }
         k => { eprintln!("unknown replay kind {k:?}"); std::process::exit(EXIT_ERROR); }
     }
 }
@@ -648,7 +757,7 @@ fn main() {
     sum.expect_branches(&["filter-size-16", "filter-size-32", "filter-size-64", "filter-size-other", "filter-build-panic-size0",
         "contains-false", "sketch-small", "sketch-medium", "sketch-large", "sketch-no-tokens", "sketch-50-or-more-tokens",
         "sketch-with-idf", "sketch-ascii-text", "sketch-non-ascii-text", "track-small", "track-medium", "track-large",
-        "track-round-trip-identical", "track-insert-replaces-existing-id", "track-empty",
+        "track-round-trip-identical", "track-insert-replaces-existing-id", "track-empty", "reload-filter-keeps-all-tokens", "memvid-reopen",
         "read-ok", "read-err-magic", "read-err-entry-size", "read-err-length", "read-err-io"]);
     if args.mode == "replay" {
         let case = load_replay(args.replay_file.as_ref().expect("replay file"));
